@@ -4,6 +4,7 @@ package c35
 import (
 	"bufio"
 	"fmt"
+	"google.golang.org/protobuf/internal/strs"
 	"math"
 	"os"
 	"os/exec"
@@ -439,6 +440,21 @@ func catalogue(b *descriptorpb.FileDescriptorProto, syn univ.Syntax) []tcase {
 				}
 			}
 			return false
+		})
+		// malformed groups: the field name must be EXACTLY the lower-cased message name, the
+		// message must be declared in the scope of the field, the field may not be in a map
+		for _, nm := range []string{"Grp", "gRp", "grP", "grp_", "gr"} {
+			nm := nm
+			add("group field named "+nm+" for message Grp", func(p *descriptorpb.FileDescriptorProto) bool {
+				M(p).NestedType = append(M(p).NestedType, &descriptorpb.DescriptorProto{Name: proto.String("Grp")})
+				M(p).Field = append(M(p).Field, &descriptorpb.FieldDescriptorProto{Name: proto.String(nm), Number: proto.Int32(43), Type: descriptorpb.FieldDescriptorProto_TYPE_GROUP.Enum(), Label: opt.Enum(), TypeName: proto.String("." + p.GetPackage() + ".M.Grp"), JsonName: proto.String(strs.JSONCamelCase(nm))})
+				return true
+			})
+		}
+		add("group whose message is declared in another scope", func(p *descriptorpb.FileDescriptorProto) bool {
+			p.MessageType = append(p.MessageType, &descriptorpb.DescriptorProto{Name: proto.String("Grp")})
+			M(p).Field = append(M(p).Field, &descriptorpb.FieldDescriptorProto{Name: proto.String("grp"), Number: proto.Int32(43), Type: descriptorpb.FieldDescriptorProto_TYPE_GROUP.Enum(), Label: opt.Enum(), TypeName: proto.String("." + p.GetPackage() + ".Grp"), JsonName: proto.String("grp")})
+			return true
 		})
 		add("message_set_wire_format with ordinary fields", func(p *descriptorpb.FileDescriptorProto) bool {
 			M(p).Options = &descriptorpb.MessageOptions{MessageSetWireFormat: proto.Bool(true)}
